@@ -43,6 +43,12 @@ func c05Scenario(c *choice.Ctx, rep *report.R, tcp bool, startQid int, nCalls, d
 	}
 	const timeout = 2 * time.Second
 	var replies []*c05Reply
+	finished := false
+	defer func() {
+		if !finished {
+			abandon(tr, d, &calls)
+		}
+	}()
 	var serial byte
 	seenFrames := map[int]int{} // conn -> frames already turned into reply candidates
 	unsolicited, finned := false, map[int]bool{}
@@ -294,6 +300,7 @@ func c05Scenario(c *choice.Ctx, rep *report.R, tcp bool, startQid int, nCalls, d
 	for i, cl := range calls {
 		st[i] = cl.String()
 	}
+	finished = true
 	rep.Eval(strings.Join(trace, ",") + "=>" + strings.Join(st, ","))
 	rep.State(fmt.Sprintf("%v|%d|%v", st, d.NumConns(), len(replies)))
 }
